@@ -156,6 +156,9 @@ pub fn ex(e: &Expr, env: &mut Env) -> Result<String, String> {
                         _ => return Err("binary operator".into()),
                     };
                     if matches!(b.op, BinOp::Sub(_)) { env.obligation(format!("{r} ≤ {l}")); }
+                    // plain `+` / `*` panic (debug) or wrap (release) on overflow: staying below 2^64 is a side condition like any other
+                    if matches!(b.op, BinOp::Add(_)) { env.obligation(format!("{l} + {r} < 2^64")); }
+                    if matches!(b.op, BinOp::Mul(_)) { env.obligation(format!("{l} * {r} < 2^64")); }
                     if matches!(b.op, BinOp::Rem(_) | BinOp::Div(_)) { env.obligation(format!("0 < {r}")); }
                     format!("({l} {op} {r})")
                 }
@@ -609,7 +612,10 @@ fn collect_helpers(src: &mut Src, path: &str) -> std::rc::Rc<BTreeMap<String, (V
 /// Symbolically executes one method and renders the five definitions of a state-transforming function.
 fn state_fn(src: &mut Src, path: &str, owner: &str, func: &str, lean: &str, ret_ty: Option<&str>) -> Result<String, String> {
     let helpers = collect_helpers(src, path);
-    let file = src.file(path)?;
+    // a method the type does not override is the trait's default body
+    let in_file = { let file = src.file(path)?; find_fn(file, owner, func).is_some() };
+    let (file, owner) = if in_file || !owner.starts_with("PrivateMRBIterator<T>for") { (src.file(path)?, owner.to_string()) } else { (src.file("src/iterators/iterator_trait.rs")?, "PrivateMRBIterator".to_string()) };
+    let owner = owner.as_str();
     let f = find_fn(file, owner, func).ok_or(format!("fn `{func}` of `{owner}` not found in {path}"))?;
     let mut env = Env::new();
     env.helpers = helpers;
